@@ -2,6 +2,7 @@
 
 from __future__ import annotations
 
+import os
 import re
 
 from pestverif.modes import WorkerDied
@@ -37,6 +38,7 @@ VOCAB = [
     "PUSH", "PUSH(", "PUSH_LITERAL(", "PEEK", "PEEK[", "PEEK_ALL", "POP", "POP_ALL", "DROP", "ANY", "SOI", "EOI",
     "//", "///", "//!", "/*", "*/", "\n", " ", "\t", "\\", "\\n", "\\u{", "\\x4", "\\u{41}", "\\u{110000}", "\\q",
     "WHITESPACE", "COMMENT", "ASCII_DIGIT", "é", "\0", "'z'..'a'", "'\\n'", "undefined_rule",
+    "'\\'", "'\\'..'z'", "'\\\\'", "''", "'\\x4'", "'\\u{}'", "'a'..'\\'",
 ]
 ENDINGS = [
     'a = { "abc', 'a = { "ab\\', "a = { 'a", "a = { 'a'..", "a = { 'a'..'", "a = { /* x", "a = { b /* /* */", "a = { #t",
@@ -65,8 +67,53 @@ BIG_TEXTS = [
     "a = { " + "(" * 3000 + '"x"' + ")" * 3000 + " }",
     "a = { " + "!" * 6000 + '"x" }',
     "a = { " + "PUSH(" * 2500 + '"x"' + ")" * 2500 + " }",
+    'a = { "b"' + "+" * 22 + " }",  # K05: attributed, not reported
+    "a = { b{2147483648} }",  # K05: not loaded
+    'a = { "x"{' + "0" * 5000 + "} }",
+    'a = { "x"{' + "0" * 5000 + "3} }",
+    "a = { PUSH(\"x\") ~ PEEK[-" + "0" * 5000 + "1..] }",
 ]
 NESTING_CHARS = "(!&"
+
+# Known finding K05: bounded repetitions and e+ are unrolled eagerly (at load time, and again by the optimizer's
+# unroll pass), so loading costs time and memory proportional to the repetition counts and exponential in the
+# depth of stacked repetition operators. unroll_cost() is a purely syntactic estimate of that blow-up.
+_LEX = re.compile(r'"(?:\\.|[^"\\])*"?|\'(?:\\.|[^\'\\])*\'?|//[^\n]*|/\*.*?(?:\*/|$)|\{[\s0-9,]*\}|[(){}+~|]', re.S)
+K05_SKIP = 2_000_000  # texts estimated above this are not loaded at all (memory of the sandbox)
+K05_ATTRIBUTE = 10_000  # a step-budget or wall-clock overrun above this estimate is attributed to K05
+
+
+def unroll_cost(text: str) -> int:
+    total = 0
+    stack = [[0, 1]]  # per open group: [cost of finished terms, cost of the current term]
+    for m in _LEX.finditer(text):
+        t = m.group()
+        c = t[0]
+        if c in "\"'" or t.startswith(("//", "/*")):
+            continue
+        if t in ("(", "{"):
+            stack.append([0, 1])
+        elif t in (")", "}"):
+            if len(stack) > 1:
+                g = stack.pop()
+                stack[-1][1] = max(stack[-1][1], 1) * max(g[0] + g[1], 1) if t == ")" else stack[-1][1]
+                if t == "}":
+                    total += g[0] + g[1]
+        elif t == "+":
+            stack[-1][1] *= 2
+        elif t in ("~", "|"):
+            stack[-1][0] += stack[-1][1]
+            stack[-1][1] = 1
+        else:  # {n} {n,} {,m} {n,m}
+            nums = [int(x[:12]) for x in re.findall(r"[0-9]+", t)]
+            if nums:
+                stack[-1][1] *= max(nums) + 1
+        if stack[-1][1] > 10**15 or total > 10**15:
+            return 10**15
+    while stack:
+        g = stack.pop()
+        total += g[0] + g[1]
+    return min(total, 10**15)
 
 
 # ----------------------------------------------------------------------------- worker side
@@ -80,13 +127,19 @@ def load_texts(req):
 
     out = []
     for text in req["texts"]:
+        cost = unroll_cost(text)
+        if cost > K05_SKIP:
+            out.append(("known", "K05", "not loaded"))
+            continue
         try:
             budget.run_limited(lambda t=text: pest.Parser.from_grammar(t, optimizer=modes.make_optimizer()), req.get("limit", 30_000_000))
             out.append(("ok",))
         except pest.PestGrammarError as err:
             out.append(("grammar-error", type(err).__name__, check_error(err, text)))
         except budget.BudgetExceeded:
-            out.append(("budget",))
+            out.append(("known", "K05", "budget") if cost > K05_ATTRIBUTE else ("budget",))
+        except MemoryError:
+            out.append(("known", "K05", "memory") if cost > K05_ATTRIBUTE else ("exc", "MemoryError", "", ""))
         except RecursionError:
             # Known finding K04: every level of nesting (parentheses, PUSH(, prefix operators) costs the
             # recursive-descent front end a handful of stack frames, so a deeply nested text exhausts the
@@ -176,7 +229,7 @@ def judge(out):
         if out[2]:
             return "error-report:" + out[2][0].split(" ")[0] + "-" + out[2][0].split(" ")[1]
         return None
-    if out[0] == "recursion":
+    if out[0] in ("recursion", "known"):
         return "skip"
     if out[0] == "budget":
         return "nontermination"
@@ -208,7 +261,8 @@ def run_texts(ctx: Ctx, modes, texts, label):
                         outs.append(worker.call("pestverif.props.c11:load_texts", {"texts": [t]})[0])
                     except WorkerDied:
                         outs.append(("recursion",))
-                        ctx.count("wall_clock_timeout_inconclusive:" + side)
+                        ctx.count(("known_K05_wall_clock:" if unroll_cost(t) > K05_ATTRIBUTE
+                                   else "wall_clock_timeout_inconclusive:") + side)
                 worker.timeout = 60.0
             for text, out in zip(part, outs):
                 ctx.evals += 1
@@ -293,6 +347,10 @@ def run_shard(ctx: Ctx, spec):
             run_texts(ctx, modes, texts, "endings")
         if idx == 1:
             run_texts(ctx, modes, BIG_TEXTS, "big")
+        # every escape form, intact and damaged, in every literal position (the C10 matrix, here for totality)
+        from pestverif.props.c10 import literal_matrix
+
+        run_texts(ctx, modes, [t for j, t in enumerate(literal_matrix()) if j % 16 == idx], "literal-matrix")
 
         # 4. token soups
         @hypothesis.seed(ctx.sub_seed("soup"))
@@ -317,8 +375,97 @@ def run_shard(ctx: Ctx, spec):
             run_texts(ctx, modes, [text, "a = { " + text + " }", 'a = { "' + text + '" }'], "st.text")
 
         anytext()
+        if ctx.tier == "thorough" or os.environ.get("PESTVERIF_FORCE_FUZZ"):
+            run_atheris(ctx, modes, idx)
     finally:
         modes.close()
+
+
+FUZZ = {"runs": int(os.environ.get("PESTVERIF_FUZZ_RUNS", "400000")), "max_len": 160}
+
+
+def run_atheris(ctx: Ctx, modes, idx):
+    """Thorough tier only: a libFuzzer campaign per shard (even shards start from an empty corpus, odd shards
+    from the bundled grammars and the hand-picked endings); its candidate texts go through run_texts()."""
+    import json
+    import os
+    import shutil
+    import subprocess
+    import sys
+    import tempfile
+
+    from pestverif import runner
+    from pestverif.meta import bundled_grammar_files
+
+    deps = os.path.join(runner.ROOT, ".deps")
+    probe = subprocess.run([sys.executable, "-c", "import sys; sys.path.insert(0, %r); import atheris" % deps],
+                           capture_output=True)
+    if probe.returncode != 0:
+        ctx.count("atheris_unavailable")
+        return
+    work = tempfile.mkdtemp(prefix="pestverif_fuzz_")
+    try:
+        corpus = os.path.join(work, "corpus")
+        os.mkdir(corpus)
+        if idx % 2:
+            seeds = [open(f, encoding="utf-8").read()[:4000] for f in bundled_grammar_files()] + ENDINGS
+            for i, t in enumerate(seeds):
+                with open(os.path.join(corpus, f"s{i}"), "wb") as fh:
+                    fh.write(t.encode("utf-8", "surrogatepass"))
+        with open(os.path.join(work, "dict.txt"), "w", encoding="utf-8") as fh:
+            for v in VOCAB:
+                if v.isascii() and v.isprintable():
+                    fh.write('"' + v.replace("\\", "\\\\").replace('"', '\\"') + '"\n')
+        out = os.path.join(work, "out.jsonl")
+        env = dict(os.environ, PESTVERIF_FUZZ_OUT=out,
+                   PYTHONPATH=os.pathsep.join([runner.ROOT] + [p for p in os.environ.get("PYTHONPATH", "").split(os.pathsep) if p]))
+        cmd = [sys.executable, "-m", "pestverif.fuzz_c11", f"-runs={FUZZ['runs']}", f"-seed={ctx.sub_seed('fuzz') % (2**31 - 2) + 1}",
+               f"-max_len={FUZZ['max_len']}", "-dict=" + os.path.join(work, "dict.txt"), "-timeout=30",
+               "-artifact_prefix=" + os.path.join(work, "art_"), "-print_final_stats=1", corpus]
+        try:
+            res = subprocess.run(cmd, env=env, cwd=runner.ROOT, capture_output=True, text=True, timeout=3600, errors="replace")
+            tail = res.stderr[-3000:]
+        except subprocess.TimeoutExpired:
+            ctx.count("atheris_wall_clock_timeout_inconclusive")
+            tail = ""
+        runs = 0
+        if os.path.exists(out + ".count"):
+            parts = (open(out + ".count").read() or "0 0").split()
+            runs = int(parts[0])
+            ctx.count("atheris_excluded_known:K05", int(parts[1]) if len(parts) > 1 else 0)
+        ctx.count("atheris_runs", runs)
+        ctx.count("atheris_corpus_files", len(os.listdir(corpus)))
+        for line in tail.splitlines():
+            if "cov:" in line and "DONE" in line:
+                try:
+                    ctx.count("atheris_cov_edges_max", 0)
+                    cov = int(line.split("cov:")[1].split()[0])
+                    ctx.hist["atheris_cov_edges_max"] = max(ctx.hist["atheris_cov_edges_max"], cov)
+                except ValueError:
+                    pass
+        for n in os.listdir(work):
+            if n.startswith(("art_timeout", "art_oom", "art_slow")):
+                ctx.count("atheris_" + n.split("-")[0][4:] + "_artifact_inconclusive")
+        texts = []
+        if os.path.exists(out):
+            with open(out, encoding="utf-8") as fh:
+                texts = [json.loads(ln)["text"] for ln in fh if ln.strip()]
+        for n in os.listdir(work):
+            if n.startswith("art_crash"):
+                texts.append(open(os.path.join(work, n), "rb").read().decode("utf-8", "surrogatepass"))
+        ctx.count("atheris_candidates", len(texts))
+        # the corpus the fuzzer kept (inputs that reached new code) is also evaluated by the oracle of record
+        kept = []
+        for n in sorted(os.listdir(corpus)):
+            try:
+                kept.append(open(os.path.join(corpus, n), "rb").read().decode("utf-8", "surrogatepass"))
+            except UnicodeDecodeError:
+                pass
+        run_texts(ctx, modes, texts + kept, "atheris")
+        if kept and idx < 2:
+            ctx.sample({"kind": "atheris corpus entry", "text": max(kept, key=len)[:160]}, force=True)
+    finally:
+        shutil.rmtree(work, ignore_errors=True)
 
 
 def replay(case):
@@ -331,6 +478,8 @@ def replay(case):
         cls = judge(out)
         if case.get("known") == "K04" and out[0] == "recursion":
             return f"[{case['optimizer']}] RecursionError escapes Parser.from_grammar for a deeply nested text"
+        if case.get("known") == "K05" and out[0] == "known":
+            return f"[{case['optimizer']}] loading exceeds the step budget: eager unrolling, estimated size {unroll_cost(case['text'])}"
         if cls in (None, "skip"):
             return None
         return f"[{case['optimizer']}] {cls}: Parser.from_grammar({case['text'][:200]!r}) -> {out}"
